@@ -155,7 +155,7 @@ class C07(Prop):
     s = detsched.Scheduler(schedule=case["schedule"], step_limit=600000,
                            trace_files=[files["activeobject"]])
     try:
-      s.run(body)
+      detsched.guarded_run(s, body)
     except (detsched.Deadlock, detsched.StepLimit) as e:
       raise PropertyViolation("no quiescence: %s" % e, "C07:liveness")
     if s.thread_errors:
